@@ -50,7 +50,18 @@ REQUIRE = {
     "sender_lifetime_conn_shape:wu": 100,
     "sender_lifetime_conn_shape:wud": 100,
     "weak_arg_refcount_only_checks": 300,
-    "lifetime_controls_ok": 7,
+    "lifetime_controls_ok": 17,
+    "layout_core_histories": 5000,
+    "layout_core_histories:slots": 1000,
+    "layout_core_histories:slotsub": 1000,
+    "layout_core_histories:slotsdict": 1000,
+    "layout_core_histories:fwd": 1000,
+    "layout_core_histories:prop": 1000,
+    "sender:slots": 1500,
+    "sender:slotsub": 1500,
+    "sender:slotsdict": 1500,
+    "sender:fwd": 1500,
+    "sender:prop": 1500,
     "histories": 6000,
     "model:emit": 15000,
     "model:emit_nested": 2000,
@@ -92,7 +103,9 @@ RULE = (
     "(quick: n=3 with <=1 op, n<=2 with <=2 ops; thorough adds n=4, its 2-op prefixes as far as 75% of the budget allows -- see "
     "core_complete_in_budget) + final emit; random histories of 5..40 ops over 3 senders x 2 names incl. real "
     "widgets (Button click, CheckBox/Edit change+postchange, SimpleListWalker/SimpleFocusListWalker modified, walker inside a "
-    "ListBox); distinct = distinct (header, ops) descriptors; non-trivial = at least one emit executed; weak_args / user_args are also passed as generators whose body performs ops (kill an earlier weak "
+    "ListBox); distinct = distinct (header, ops) descriptors; non-trivial = at least one emit executed; sender attribute layouts {slot, inherited slot + dict subclass, slot + __dict__, forwarding __getattr__/__setattr__, property} "
+    "appear in random histories, in the refcount-only part and in their own n=2 core (every behaviour pair x <=1 op, then the sender is dropped)"
+    "; weak_args / user_args are also passed as generators whose body performs ops (kill an earlier weak "
     "arg, disconnect, connect, emit, gc) INSIDE connect()/disconnect() -- enumerated (2 earlier handlers x op x position x "
     "iterable x API) and random; PLUS class families for the registration clause (MetaSignals classes with list literal / list "
     "object shared between classes / `signals = Other.signals` / no list, 0-2 bases, diamonds, duplicate names, plain classes and "
@@ -110,11 +123,11 @@ ASSUMES = [
     "a connection whose weak argument dies during an emit must not be called after the death; calls before it are fine",
     "emit result is compared by truthiness; handler return values used: None, False, 0, '', True, 1, 'x', (0,)",
     "for widget triggers the emitted arguments follow the widget documentation: (widget, new value) for 'change', (widget, old value) for 'postchange', (widget,) for 'click', () for 'modified'",
-    "registration: a class must accept the names in its own `signals` list as it was when the class was created plus everything its bases must accept (MetaSignals docstring), and must reject every name outside that set and outside the contents its bases' lists had at that moment (names only in the latter are not judged); classes created later never change this; a manual register_signal call replaces the set",
+    "registration: a class must accept the names in its own `signals` list as it was when the class was created plus everything its bases must accept (MetaSignals docstring), and must reject every other name (exact set; no tolerance band); classes created later never change this; a manual register_signal call replaces the set",
     "ops run from inside connect()/disconnect() are ordered before the connection/disconnection they are nested in (the handler list is touched last by connect)",
     "refcount-only lifetime part: a sender class is used only if a never-connected instance of it dies by reference counting alone (control run first); whether a dead weak argument's connection also releases its callback is recorded as an observation (dead_weak_connection_callback_released/retained), not judged",
     "history part: liveness is judged after dropping the harness's own references and one gc.collect(); handlers never hold a strong reference to a sender or weak argument other than ones the history itself passes as user_args (never done)",
-    "weak-argument objects use identity equality; senders accept attribute assignment (no __slots__)",
+    "weak-argument objects use identity equality; a sender must be weak-referenceable and must be able to hold the attribute '_urwid_signals': ordinary __dict__, a slot of that name (own or inherited, with '__weakref__'), forwarding __getattr__/__setattr__, or a property of that name -- all five measured to work on the unchanged tree; slotted classes without '__weakref__' or without room for the attribute are outside the domain (connect raises TypeError / AttributeError)",
 ]
 
 RETS = [None, False, 0, "", True, 1, "x", [0]]
@@ -161,6 +174,49 @@ def classes():
     class MetaPlainSub(MetaSub):
         pass
 
+    # ---- senders by attribute layout: where does the per-sender handler table live?
+    # (measured on the unchanged tree: these five work; a slotted class WITHOUT '__weakref__' cannot be a sender at
+    # all (connect takes a weak reference to it) and one without room for the attribute raises AttributeError)
+    class Slots:
+        __slots__ = ("_urwid_signals", "__weakref__")
+
+    class SlotBase:
+        __slots__ = ("_urwid_signals",)
+
+    class SlotSub(SlotBase):  # has __dict__ and __weakref__, but the attribute is the base's slot
+        pass
+
+    class SlotsDict:
+        __slots__ = ("_urwid_signals", "__dict__", "__weakref__")
+
+    class Fwd:  # attribute access forwarded to an inner store
+        def __init__(self):
+            object.__setattr__(self, "_store", {})
+
+        def __getattr__(self, n):
+            try:
+                return object.__getattribute__(self, "_store")[n]
+            except KeyError:
+                raise AttributeError(n) from None
+
+        def __setattr__(self, n, v):
+            self._store[n] = v
+
+    class Prop:  # the attribute is a property kept under another name
+        @property
+        def _urwid_signals(self):
+            try:
+                return self.__dict__["_sig"]
+            except KeyError:
+                raise AttributeError("_urwid_signals") from None
+
+        @_urwid_signals.setter
+        def _urwid_signals(self, v):
+            self.__dict__["_sig"] = v
+
+    for c in (Slots, SlotSub, SlotsDict, Fwd, Prop):
+        urwid.register_signal(c, ["a", "b"])
+    _CLASSES.update(slots=(Slots, ["a", "b"]), slotsub=(SlotSub, ["a", "b"]), slotsdict=(SlotsDict, ["a", "b"]), fwd=(Fwd, ["a", "b"]), prop=(Prop, ["a", "b"]))
     urwid.register_signal(Plain, ["a", "b"])
     urwid.register_signal(Plain2, ["a", 7])
     urwid.register_signal(Falsy, ["a", "b"])
@@ -176,8 +232,9 @@ def classes():
     return _CLASSES
 
 
-FRESH_KINDS = ["plain", "plain2", "falsy", "unreg"]
-MODULE_KINDS = ["plain", "plain2", "falsy", "unreg", "metabase", "metasub", "metaplainsub"]
+LAYOUT_KINDS = ["slots", "slotsub", "slotsdict", "fwd", "prop"]
+FRESH_KINDS = ["plain", "plain2", "falsy", "unreg", *LAYOUT_KINDS]
+MODULE_KINDS = ["plain", "plain2", "falsy", "unreg", "metabase", "metasub", "metaplainsub", *LAYOUT_KINDS]
 WIDGET_KINDS = {
     "button": ["click"],
     "checkbox": ["change", "postchange"],
@@ -193,6 +250,8 @@ WIDGET_KINDS = {
 def kind_names(kind):
     if kind in WIDGET_KINDS:
         return list(WIDGET_KINDS[kind])
+    if kind in LAYOUT_KINDS:
+        return ["a", "b"]
     return {"plain": ["a", "b"], "plain2": ["a", 7], "falsy": ["a", "b"], "unreg": [], "metabase": ["a"], "metasub": ["a", "b"], "metaplainsub": ["a", "b"]}[kind]
 
 
@@ -825,10 +884,10 @@ def core_prefix_universe(n, disc, weakpat):
     return u
 
 
-def core_cases(n, maxprefix, minprefix=0):
+def core_cases(n, maxprefix, minprefix=0, kind="plain"):
     """yield witnesses of the exhaustive core for n handlers with minprefix..maxprefix ops before the final emit"""
     for api, disc, weakpat in itertools.product(("module", "fresh"), ("disc_key", "disc_args"), (0, 1)):
-        header = {"api": api, "senders": {"s0": {"kind": "plain", "names": ["a", "b"]}}, "nweak": n if weakpat else 0}
+        header = {"api": api, "senders": {"s0": {"kind": kind, "names": ["a", "b"]}}, "nweak": n if weakpat else 0}
         uni = core_prefix_universe(n, disc, weakpat)
         prefixes = []
         for d in range(minprefix, maxprefix + 1):
@@ -964,7 +1023,7 @@ def rand_act(rng, sids, names_of, depth, nweak):
 def rand_history(rng, quick):
     api = rng.choice(["module", "fresh"])
     if api == "fresh":
-        kinds = [rng.choice(FRESH_KINDS if rng.random() < 0.15 else ["plain", "plain2", "falsy"]) for _ in range(3)]
+        kinds = [rng.choice(FRESH_KINDS if rng.random() < 0.15 else ["plain", "plain2", "falsy", *LAYOUT_KINDS]) for _ in range(3)]
     else:
         r = rng.random()
         if r < 0.45:
@@ -1085,7 +1144,7 @@ LT_SHAPES = {
     "wd": (1, [], "dep"),
     "wud": (1, ["u"], "dep"),
 }
-LT_KINDS = {"module": ["plain", "falsy", "metasub", "plain2"], "fresh": ["plain", "falsy", "plain2"]}
+LT_KINDS = {"module": ["plain", "falsy", "metasub", "plain2", *LAYOUT_KINDS], "fresh": ["plain", "falsy", "plain2", *LAYOUT_KINDS]}
 LT_STYLES = ["func", "obj", "meth"]
 
 
@@ -1340,12 +1399,14 @@ def lt_shrink(desc, sig):
 
 
 def judge_lifetime(ctx, desc, label=None):
+    lay = f"|sender-layout={desc['kind']}" if desc["kind"] in LAYOUT_KINDS else ""
     try:
         findings, counts = lifetime_case(desc)
+        findings = [(sg + lay, m) for sg, m in findings]
     except Exception as e:  # noqa: BLE001
         import traceback
 
-        ctx.violation(f"C14|lifetime|harness-or-urwid-exception|{type(e).__name__}", f"{type(e).__name__}: {e}\n{traceback.format_exc(limit=8)}", {"lifetime": desc})
+        ctx.violation(f"C14|lifetime|harness-or-urwid-exception|{type(e).__name__}{lay}", f"{type(e).__name__}: {e}\n{traceback.format_exc(limit=8)}", {"lifetime": desc})
         return
     for k, v in counts.items():
         ctx.count(k, v)
@@ -1356,7 +1417,15 @@ def judge_lifetime(ctx, desc, label=None):
         if sig in seen:
             continue
         seen.add(sig)
-        w = desc if ctx.replaying else lt_shrink(desc, sig)
+        if ctx.replaying:
+            ctx.violation("C14|" + sig, msg, {"lifetime": desc})
+            continue
+        n = _SHRUNK.get(sig, 0)
+        _SHRUNK[sig] = n + 1
+        if n >= 2:
+            ctx.count("violations_folded_into_shrunk_form")
+            continue
+        w = lt_shrink(desc, sig[: len(sig) - len(lay)] if lay else sig)
         ctx.violation("C14|" + sig, msg, {"lifetime": w})
 
 
@@ -1375,7 +1444,7 @@ def run_lifetime(ctx, frac):
     for api, kind in usable:
         for label, steps in lt_hist_cases():
             i += 1
-            if ctx.mine(i):
+            if ctx.mine(i) and ctx.more(0.3):
                 judge_lifetime(ctx, {"api": api, "kind": kind, "steps": steps}, label)
                 ctx.count("lifetime_enumerated_cases")
     ctx.sample({"lifetime": {"api": "module", "kind": "plain", "steps": [["connect", "a", "wu", "func"], ["emit", "a"]]}}, limit=5)
@@ -1563,6 +1632,11 @@ def judge_family(ctx, desc):
         seen.add(sig)
         cur = desc
         if not ctx.replaying:
+            n = _SHRUNK.get(sig, 0)
+            _SHRUNK[sig] = n + 1
+            if n >= 2:
+                ctx.count("violations_folded_into_shrunk_form")
+                continue
             i = len(cur["steps"]) - 1
             while i >= 0:
                 cand = {"steps": cur["steps"][:i] + cur["steps"][i + 1 :]}
@@ -1615,9 +1689,19 @@ def run(ctx):
     ctx.extra["core_complete_in_budget"] = complete
     for wit in lazy_core_cases():
         idx += 1
-        if ctx.mine(idx):
+        if ctx.mine(idx) and ctx.more(0.9):
             judge(ctx, wit)
             ctx.count("lazy_core_histories")
+    # the n=2 core (every behaviour pair, <=1 op before the final emit) on every sender attribute layout,
+    # followed by dropping the sender
+    for kind in LAYOUT_KINDS:
+        for wit in core_cases(2, 1, 0, kind):
+            idx += 1
+            if ctx.mine(idx) and ctx.more(0.9):
+                wit["ops"].append(["kill", "s0"])
+                judge(ctx, wit)
+                ctx.count("layout_core_histories")
+                ctx.count("layout_core_histories:" + kind)
     rng = ctx.rng
     k = 0
     while ctx.more(1.0):
